@@ -119,6 +119,34 @@ def make_machine(stats):
             self.rt.ignore_errors(b)
             self.base = b
 
+        @rule(v=st.integers(0, 1), form=st.sampled_from(["lc", "bool"]), b=st.booleans(), how=st.sampled_from(["return", "raise"]))
+        def region_with_toggle(self, v, form, b, how):
+            """a region entered and left within this step in which the program itself switches error suppression (a helper that
+            turns its checks back on - or off - when it is done): inside, the switch takes effect; leaving the region - by return
+            or by an exception - puts guard, suppression and the constant back exactly as they were at entry"""
+            self.hist.append(["region_with_toggle", v, form, b, how])
+            cond = self.mkcond(v, form)
+            before = self.triple()
+            try:
+                bak = self.rt.add_guard(cond)
+            except Warning:
+                return
+            try:
+                try:
+                    self.rt.ignore_errors(b)
+                    if bool(self.rt.ignore_errors()) != b:
+                        self.fail("ignore_errors(%r) inside a region: ignore_errors() then reports %r" % (b, self.rt.ignore_errors()))
+                    if how == "raise":
+                        raise KeyError("the program's own")
+                finally:
+                    self.rt.restore_guard(bak)
+            except KeyError:
+                pass
+            after = self.triple()
+            if before[0] is not after[0] or bool(before[1]) != bool(after[1]) or before[2] is not after[2]:
+                self.fail("a region (condition %d) in which the program called ignore_errors(%r) was left by %s: (guard, suppression, constant) was %r at entry and is %r afterwards"
+                          % (v, b, how, (before[0], before[1]), (after[0], after[1])))
+
         @rule(kind=st.sampled_from(["zero", "nonbool", "type", "nonbool-bool"]))
         def bad_enter(self, kind):
             self.hist.append(["bad_enter", kind])
@@ -676,7 +704,7 @@ def replay(case):
                 m.warnings_policy(h[1])
             elif h[0] == "collect_garbage":
                 m.collect_garbage()
-            elif h[0] in ("gen_start", "gen_step", "call_args", "refused_block"):
+            elif h[0] in ("gen_start", "gen_step", "call_args", "refused_block", "region_with_toggle"):
                 getattr(m, h[0])(*h[1:])
             else:
                 raise core.HarnessError("C08 replay: unknown step %r" % (h[0],))
